@@ -63,6 +63,7 @@ static void GetToken(tStrComp* pSrc, tStrComp* pDest) {
         }
     }
     StrCompCutLeft(pSrc, p - pSrc->str.p_str);
+    p = pSrc->str.p_str; /* the cut moved the string: p was stale */
     if (*p == '\0') {
         StrCompReset(pDest);
         return;
